@@ -33,6 +33,15 @@
 (* for lists (named deviation "unlocked_no_list").  Properties are stated  *)
 (* on inv; invd only predicts what the pinned code answers, so that a      *)
 (* divergence of the real engine can be recognised as exactly that one.    *)
+(*                                                                         *)
+(* Two ways of producing histories: exhaustive (every operation of the     *)
+(* constant universe, histories of at most MaxOps operations; with         *)
+(* AllHistories every history is explored on its own, otherwise one per    *)
+(* reachable state and length) and scripted (the seeded long histories of  *)
+(* the constant Script are followed operation by operation).  In both, the *)
+(* CORPUS channel prints for every state the result set required for every *)
+(* filter of the basis; harness/cmd/vfilter replays the histories on a     *)
+(* real engine and compares (tools/check_C08.py).                          *)
 (***************************************************************************)
 EXTENDS Integers, Sequences, FiniteSets, TLC, Json
 
@@ -47,6 +56,8 @@ CONSTANTS
   Steps,      \* names of the state-transfer / maintenance actions offered: subset of
               \*   {"Snap","Reopen","Rewrite","Compress","Vacuum"}
   MaxOps,     \* bound on the length of a history (exhaustive mode)
+  AllHistories, \* TRUE: every HISTORY of the bound is a behaviour of its own (and is replayed on the engine);
+              \* FALSE: histories that lead to the same state with the same length are explored once
   Script,     \* <<>> (exhaustive mode) or a sequence of histories (sequences of [op, id, m]) to follow
   MaxCtr      \* bound on internal ids handed out per index incarnation
 
@@ -433,9 +444,10 @@ Inv_RestartAgrees ==
 (***************************************************************************)
 (* Model-checking plumbing.                                                *)
 (***************************************************************************)
-\* the history is not part of the state identity, its length is (so that the bound cuts the same
-\* states whatever the exploration order of TLC's workers)
-View == <<truth, live, ix, dur, prec32, Len(ops), wi>>
+\* State identity.  By default the history is not part of it, its length is (so that the bound cuts the
+\* same states whatever the exploration order of TLC's workers): one history per (state, length) is
+\* recorded.  With AllHistories every history is kept apart.
+View == <<truth, live, ix, dur, prec32, IF AllHistories THEN ops ELSE Len(ops), wi>>
 
 Pow2(i) == CASE i = 1 -> 1 [] i = 2 -> 2 [] i = 3 -> 4 [] i = 4 -> 8
 RECURSIVE MaskFrom(_, _)
